@@ -27,6 +27,7 @@ type faultSubject struct {
 	stray  int // recover func called without a request id
 	sink   *bytes.Buffer
 	sinkN  int
+	routers []*mux.Router[*Comp]
 }
 
 const reqIDKey = "\x00sim-req"
@@ -41,6 +42,23 @@ func (fs *faultSubject) recoverFunc(w http.ResponseWriter, v any) {
 	fs.calls[idx]++
 	fs.vals[idx] = v
 	http.Error(w, "recovered", recStatus)
+}
+
+// icFunc is a user-supplied interceptor ("sim" rule) that can be made to panic:
+// the value boom<N> makes it throw request N's armed "ic" fault.
+func (fs *faultSubject) icFunc(v string) bool {
+	if strings.HasPrefix(v, "boom") {
+		if idx, err := strconv.Atoi(v[4:]); err == nil && idx >= 0 && idx < len(fs.recs) && fs.recs[idx] != nil {
+			fs.recs[idx].maybeFault("ic", "pre")
+		}
+		return true
+	}
+	for i := 0; i < len(v); i++ {
+		if v[i] < '0' || v[i] > '9' {
+			return false
+		}
+	}
+	return len(v) > 0
 }
 
 func (fs *faultSubject) option(kind string) []mux.Option {
@@ -63,7 +81,7 @@ func (fs *faultSubject) option(kind string) []mux.Option {
 func buildFaultSubject(w *World, nreq int) *faultSubject {
 	env := NewEnv()
 	fs := &faultSubject{env: env, recs: make([]*ReqRec, nreq), calls: make([]int, nreq), vals: make([]any, nreq), sink: &bytes.Buffer{}}
-	opts := fs.option(w.Opts.Recovery)
+	opts := append(fs.option(w.Opts.Recovery), mux.WithInterceptor(fs.icFunc, "sim"))
 	if w.Variant == "group" || w.Variant == "group-conc" {
 		base := RouterOpts{Lock: w.Opts.Lock, Trace: w.Opts.Trace}
 		gopts := base.muxOptions(env, opts...)
@@ -79,6 +97,7 @@ func buildFaultSubject(w *World, nreq int) *faultSubject {
 						extra = fs.option(op.Args[0])
 					}
 					routers[op.Name] = g.New(op.Name, mux.NewHosts(false, op.Name+".example.com"), extra...)
+					fs.routers = append(fs.routers, routers[op.Name])
 				case "guse":
 					g.Use(env.MWs(op.MW...)...)
 				case "use":
@@ -97,6 +116,7 @@ func buildFaultSubject(w *World, nreq int) *faultSubject {
 		return fs
 	}
 	r := NewSimRouter(env, w.Opts, opts...)
+	fs.routers = append(fs.routers, r)
 	for i := range w.Setup {
 		op := &w.Setup[i]
 		catch(func() {
@@ -210,7 +230,7 @@ func genC16(r *Rng, idx int, tier string) *World {
 	} else {
 		names = []string{""}
 	}
-	pats := []string{"/a", "/b/{id}", "/c/{id:digit}/x", "/p/q", "/p/{name}"}
+	pats := []string{"/a", "/b/{id}", "/c/{id:digit}/x", "/p/q", "/p/{name}", "/i/{v:sim}/x"}
 	type route struct{ name, pat, method string }
 	var routes []route
 	for _, name := range names {
@@ -246,8 +266,11 @@ func genC16(r *Rng, idx int, tier string) *World {
 	var reqs []Op
 	for i := 0; i < nreq; i++ {
 		rt := pick(r, routes)
-		p, _ := ParsePattern(rt.pat, w.Opts.Interceptors)
+		p, _ := ParsePattern(rt.pat, append([]string{"sim"}, w.Opts.Interceptors...))
 		path, _ := p.Witness(r)
+		if rt.pat == "/i/{v:sim}/x" {
+			path = fmt.Sprintf("/i/%d/x", 100+i)
+		}
 		q := Req{Method: rt.method, Path: path}
 		switch r.Intn(10) {
 		case 0:
@@ -273,7 +296,14 @@ func genC16(r *Rng, idx int, tier string) *World {
 	}
 	for a := 0; a < armed; a++ {
 		i := r.Intn(len(reqs))
-		f := &FaultSpec{Val: pick(r, []string{"ptr", "ptr", "err", "str", "struct", "rt"})}
+		f := &FaultSpec{Val: pick(r, []string{"ptr", "ptr", "err", "str", "struct", "rt", "abort"})}
+		if strings.HasPrefix(reqs[i].Req.Path, "/i/") && reqs[i].Req.Host != "nobody.example.org" && r.Pct(70) {
+			// the user's interceptor panics while the router is matching (inside its read lock)
+			reqs[i].Req.Path = fmt.Sprintf("/i/boom%d/x", i)
+			f.Site, f.Phase = "ic", "pre"
+			reqs[i].Faults = append(reqs[i].Faults, f)
+			continue
+		}
 		if len(tags) > 0 && r.Pct(45) {
 			f.Site = "mw:" + pick(r, tags)
 			f.Phase = pick(r, []string{"pre", "post"})
@@ -312,6 +342,11 @@ func genC16(r *Rng, idx int, tier string) *World {
 			q.T = t
 			w.Tasks[t] = append(w.Tasks[t], q)
 		}
+		if r.Pct(60) {
+			// somebody registers a route afterwards: it must not block behind a lock that a panicking request left held
+			t := r.Intn(nT)
+			w.Tasks[t] = append(w.Tasks[t], Op{T: t, K: "handle", Pattern: "/late", HID: 9999, Methods: []string{"PUT"}, N: -1})
+		}
 	} else {
 		for i := range reqs {
 			reqs[i].N = i
@@ -328,7 +363,9 @@ func execC16(w *World, st *Stats) (*Violation, RunInfo) {
 	if conc {
 		for t := range w.Tasks {
 			for i := range w.Tasks[t] {
-				all = append(all, &w.Tasks[t][i])
+				if w.Tasks[t][i].K == "req" {
+					all = append(all, &w.Tasks[t][i])
+				}
 			}
 		}
 	} else {
@@ -361,6 +398,12 @@ func execC16(w *World, st *Stats) (*Violation, RunInfo) {
 	if conc {
 		var logs []opLog
 		logs, sw = runTasks(w, func(task int, op *Op) string {
+			if op.K == "handle" {
+				if pan := applyAdmin(fs.env, fs.routers[0], op); pan != nil {
+					return "admin-panic(" + classifyPanic(pan) + ")"
+				}
+				return "ok"
+			}
 			o := fs.serveIdx(op.N, *op.Req, op.Faults)
 			obs[op.N] = o
 			return reqKey(&o)
